@@ -37,6 +37,9 @@ def cases(tier, seed):
             c = {"kind": "restore", "N": 4 if tier == "quick" else 5, "L": L, "ncols": ncols}
             c["name"] = RS.case_name(c)
             out.append(c)
+        c = {"kind": "restore", "N": 4 if tier == "quick" else 5, "L": 4, "shape": [2, 2], "ncols": ncols}
+        c["name"] = RS.case_name(c)
+        out.append(c)
     for op in ("nth", "head", "tail"):
         for neg in ((False, True) if op == "nth" else (False,)):
             c = {"op": op, "G": 2 if tier == "quick" else 3, "inductive": True, "neg": neg}
@@ -79,8 +82,9 @@ META = {
                     "(convert_data_to_arr_list_and_keys, _validate_input_lengths_and_indexes, boolean compress of the positions (forks), "
                     "RangeIndex take = start + step * position, DataFrame(dict).iloc[positions].set_index, _maybe_squeeze_to_1d); values are a "
                     "Series or a dict of Series over ONE RangeIndex with symbolic start (|start| <= 50) and step (0 < |step| <= 5); positions are "
-                    "arbitrary distinct rows or -1 (what the kernels return is the other families' subject); grouping with sort off; "
-                    "replayed through the public nth(0) on a categorical key built to select exactly those positions",
+                    "arbitrary distinct rows or -1 as a vector (nth) or a (groups, n) matrix with ascending rows (head/tail) - what the kernels return is "
+                    "the other families' subject; grouping with sort off; the order across groups is left open, as in the property; "
+                    "replayed through the public nth(0) / head(n) on a categorical key built to select exactly those positions",
                     "GroupBy.head/tail/nth: the real methods run on directly constructed states (contiguous codes; chunked codes with per-chunk "
                     "dictionaries, N=4 quick / 6 thorough); _get_row_selection is cut to 'return the positions'",
                     "inductive step: pre-state = any state satisfying 'seen = count wrapped into the counter dtype, out = what the "
